@@ -14,6 +14,8 @@ def setup():
     global RT, LK, TP, EXC
     if RT is not None:
         return
+    from symx import loader
+    loader.ORDER_SETS = True      # the iteration order of mako's own sets (PYTHONHASHSEED) is a harness choice in the scope harness
     RT, LK, TP, EXC = common.mako("runtime", "lookup", "template", "exceptions")
 
 
@@ -187,9 +189,14 @@ def h_scopes(p):
         raise core.Abort("argument binding only applies to def sites")
     if f["outer_local"] and f["site"] != "nested-def":
         raise core.Abort("enclosing-def local only applies to the nested def site")
-    if f["page_arg"] and f["name"] == "format" and False:
-        raise core.Abort("-")
-    out, unchanged = render_case(LK, RT, f)
+    from symx import loader
+    order = [None, "sorted", "reversed"][p.choose(3, "set_iteration_order")]
+    loader.SET_ORDER["mode"] = order
+    try:
+        out, unchanged = render_case(LK, RT, f)
+    finally:
+        loader.SET_ORDER["mode"] = None
+    f["set_order"] = order
     return dict(f=f, out=out, unchanged=unchanged)
 
 
@@ -341,6 +348,14 @@ from mako import exceptions
 from props import C04
 bad = None
 print("case:", CASE)
+if "flags" in CASE and CASE["flags"].get("set_order") and not os.environ.get("C04_REPLAY_CHILD"):
+    # found under a particular iteration order of mako's sets: look for a hash seed that shows it
+    import subprocess
+    for seed in range(16):
+        r_ = subprocess.run([sys.executable, __file__], env=dict(os.environ, PYTHONHASHSEED=str(seed), C04_REPLAY_CHILD="1"), capture_output=True, text=True)
+        if r_.returncode == 1 and "VIOLATED" in r_.stdout:
+            print("PYTHONHASHSEED=%d:" % seed); print(r_.stdout[-600:]); sys.exit(1)
+    print("HOLDS under hash seeds 0..15 (not reproduced)"); sys.exit(0)
 if "flags" in CASE:
     f = CASE["flags"]
     print(C04.source(f))
@@ -393,6 +408,8 @@ def run(check, tier):
         "run-time half: the real Context is built from render arguments whose presence per name (a data name, a builtin's name, an absent name) "
         "is solver-chosen and whose values are symbolic objects; get/[] must follow data > builtins > default/KeyError, kwargs must equal "
         "the render arguments and be a copy, writes through _locals()/_copy() children must be invisible to the parent",
+        "the iteration order of every set built by mako's own modules (identifier sets of the scope analysis) is a further choice "
+        "(interpreter's own / sorted / reversed): name resolution must not depend on PYTHONHASHSEED",
         "compile-time half: for every solver-chosen combination of binding sites (context, module-level <%! %>, namespace import, body "
         "assignment, def argument), read site (body, def, nested def, named block, call body, control line), name (ordinary / a builtin's) "
         "and strict_undefined, a real template is compiled and rendered and must print the value the statement's order selects",
